@@ -50,10 +50,16 @@ REPS = [
     ("negi", "(-1i)", ["c", cF(-0.0)[1], cF(-1.0)[1]]), ("negi", "(0 - 1i)", ["c", cF(0.0)[1], cF(-1.0)[1]]),
     # -2^63: the one machine word whose magnitude needs 64 bits - as a machine word, in big representation, as a float
     ("m63", "(0 - 9223372036854775807 - 1)", cI(-2 ** 63)), ("m63", "((0 - 2)^63)", cI(-2 ** 63)), ("m63", "(0.0 - 2.0^63)", cF(-2.0 ** 63)),
+    # a dictionary of eight entries written in two orders (two separately built tables iterate differently, 8! orders: equality
+    # and hash of a dict key may not follow iteration order), alone and nested in a list key
+    ("d8", "{%s}" % ", ".join("%d: %d" % (i, i) for i in range(1, 9)), ["d", [[cI(i), cI(i)] for i in range(1, 9)]]),
+    ("d8", "{%s}" % ", ".join("%d: %d" % (i, i) for i in range(8, 0, -1)), ["d", [[cI(i), cI(i)] for i in range(1, 9)]]),
+    ("ld8", "[{%s}]" % ", ".join("%d: %d" % (i, i) for i in range(1, 9)), ["l", [["d", [[cI(i), cI(i)] for i in range(1, 9)]]]]),
+    ("ld8", "[{%s}]" % ", ".join("%d: %d" % (i, i) for i in range(8, 0, -1)), ["l", [["d", [[cI(i), cI(i)] for i in range(1, 9)]]]]),
 ]
-QUICK_REPS = [0, 1, 2, 5, 6, 10, 11, 13, 14, 17, 30, 19, 22, 23, 26, 27, 31, 32, 33, 34, 35]       # 1, 1.0, 2/2, 1/2, 0.5, 2^64, 2.0^64, [1], [1.0], "1", V(1, NaN), V(1.0, NaN)
+QUICK_REPS = [0, 1, 2, 5, 6, 10, 11, 13, 14, 17, 30, 19, 22, 23, 26, 27, 31, 32, 33, 34, 35, 36, 37]       # 1, 1.0, 2/2, 1/2, 0.5, 2^64, 2.0^64, [1], [1.0], "1", V(1, NaN), V(1.0, NaN)
 # depth-3 search: 21 representatives ([NaN], {1: NaN} and the two spellings of 1/3 stay in the grid family, which uses every representative)
-MID_REPS = [0, 1, 2, 3, 4, 5, 6, 7, 9, 10, 11, 12, 13, 14, 15, 16, 17, 30, 19, 22, 23, 26, 27, 31, 32, 33, 34, 35]
+MID_REPS = [0, 1, 2, 3, 4, 5, 6, 7, 9, 10, 11, 12, 13, 14, 15, 16, 17, 30, 19, 22, 23, 26, 27, 31, 32, 33, 34, 35, 36, 37, 38, 39]
 
 OPS = ["set", "inc", "rem", "add", "sub", "merge", "inter", "minus", "plus", "ins"]
 RAISE = "raise"
